@@ -38,6 +38,11 @@ class Scenario:
         """perform ev on world; return list of (signature, what)"""
         raise NotImplementedError
 
+    def advance(self, world, ev):
+        """perform ev while re-building a known-good prefix; scenarios whose
+        step oracle is expensive override this with the bare mutation"""
+        return self.apply(world, ev)
+
     def canon(self, world):
         """hashable canonical form, or None for no deduplication"""
         return None
@@ -77,9 +82,12 @@ def replay_history(scn, hist, check=False):
     w = scn.build()
     out = []
     for ev in hist:
-        v = scn.apply(w, ev)
-        if check and v:
-            out.extend(v)
+        if check:
+            v = scn.apply(w, ev)
+            if v:
+                out.extend(v)
+        else:
+            scn.advance(w, ev)
     return w, out
 
 
